@@ -29,7 +29,7 @@ def gen_run(wd, name, templates, path_depth=4, slices=(), **kw):
         Editions=tla_set(kw.get('editions', (4,))), Compressions=tla_set(kw.get('compressions', (False, True))),
         SubsetCounts=tla_set(kw.get('subset_counts', (1, 2))), Fmax=str(kw.get('fmax', 2)), Seeds=tla_set(kw.get('seeds', (0,))),
         Slack='0', Mode='"produce"', ResetPolicy='"fm94"', ValueMode='"classes"',
-        dirs=table_dirs(mversion, local), mversion=mversion, local=local, NulStrings='TRUE' if kw.get('nul') else 'FALSE')
+        dirs=table_dirs(mversion, local), mversion=mversion, local=local, NulStrings='TRUE' if kw.get('nul') else 'FALSE', NestedAssoc='TRUE' if kw.get('nested_assoc') else 'FALSE')
     consts.update(consts_extra)
     text = tlc.mc_module(name, ['FM94Tree'], consts)
     cfg = tlc.mc_cfg(consts, invariants=['TypeOK', 'LinksPointBack', 'TreeConserves', 'EmitTree'])
